@@ -30,7 +30,10 @@ ASSUMPTIONS = [
 VARIANTS = ["native", "swapped", "strided", "negstride", "swapped-strided", "swapped-negstride", "f4", "i8", "0d", "2d", "readonly",
             # ndarray subclasses (np.asarray() of these is a NEW base-class view of the caller's memory, so "is it my own
             # copy?" tests by identity go wrong) and tables whose fields differ in byte order
-            "subclass", "masked", "memmap", "memmap-column", "mixed-order", "2d-F"]
+            "subclass", "masked", "memmap", "memmap-column", "mixed-order", "2d-F",
+            # objects that export a writable float64 BUFFER but are no ndarrays and have no .copy(): np.asarray() wraps them
+            # without copying
+            "buffer:array.array", "buffer:ctypes", "buffer:memoryview"]
 _MM = {"n": 0, "dir": None}
 
 
@@ -103,6 +106,16 @@ def make_variant(a, variant):
         if a.ndim == 1 and a.size % 2 == 0 and a.size >= 4 and a.dtype.names is None:
             return np.asfortranarray(a.reshape(2, -1))
         return None
+    if variant.startswith("buffer:"):
+        if a.ndim != 1 or a.dtype != np.dtype("f8") or a.size == 0:
+            return None
+        if variant == "buffer:array.array":
+            import array as _array
+            return _array.array("d", a.tolist())
+        if variant == "buffer:ctypes":
+            import ctypes as _ct
+            return (_ct.c_double * a.size)(*a.tolist())
+        return memoryview(bytearray(a.tobytes())).cast("d")
     if variant == "subclass":
         return a.copy().view(_Sub)
     if variant == "masked":
@@ -140,6 +153,8 @@ def make_variant(a, variant):
 
 
 def snapshot(a):
+    if not isinstance(a, np.ndarray):
+        return ("buffer", bytes(memoryview(a)), type(a).__name__, len(a))
     if isinstance(a, np.ma.MaskedArray):
         return ("masked", snapshot(np.asarray(a.data)), np.ma.getmaskarray(a).tobytes())
     base = a
